@@ -35,7 +35,7 @@ def convert(e):
         return {"ev": k, "id": e["id"], "name": e["name"], "def": e.get("def", ""), "req": e["req"], "inverted": e["inverted"] == "true",
                 "invertible": e["invertible"] == "true", "n": _int(e["n"])}
     if k == "applied":
-        return {"ev": k, "id": e["id"], "count": _int(e["count"])}
+        return {"ev": k, "id": e["id"], "count": _int(e["count"]), "ran": e["ran"]}
     if k == "step":
         return {"ev": k, "id": e["id"], "name": e["name"], "dir": e["dir"], "skipped": e["skipped"] == "true",
                 "count": _int(e["count"]), "depth": _int(e["depth"])}
